@@ -11,6 +11,8 @@ CONSTANTS
   MaxDepth = 3
   CellMask = TRUE
   CopyClear = TRUE
+  Grow = 1
+  GrowDepth = 1
   DataCopyDepth = 1
   Valueless = TRUE
   Deviations = {}
